@@ -67,6 +67,15 @@ def main(argv: list[str]) -> int:
     nshards = mod.SHARDS.get(tier, 1) if hasattr(mod, "SHARDS") else 1
     core.run_sharded(mod, ctx, tier, nshards)
     kw = mod.finish_kwargs(ctx, tier) if hasattr(mod, "finish_kwargs") else {}
+    try:
+        # the module's rule text says what counts as non-trivial; the registered description is the complete list of families
+        from . import manifest_data
+
+        text = manifest_data.CHECKS.get(pid, {}).get("text")
+        if text and kw.get("rule") is not None:
+            kw["rule"] = kw["rule"] + " || Everything the check generates (as registered in MANIFEST.json): " + text
+    except Exception:  # noqa: BLE001
+        pass
     return core.finish(ctx, started=started, **kw)
 
 
